@@ -365,6 +365,8 @@ def gen_kernel_wiring():
                 raise TranslateError('%s: expected 3 Mfunc calls, got %d' % (name, len(calls)))
             # local aliases: x = xx[ii]; y = yy[jj]; ...
             alias = dict((m.group(1), m.group(2)) for m in re.finditer(r'\b(\w+) = (\w\w)\[\w\w\];', body1))
+            LOOPV = {'xx': 'ii', 'yy': 'jj', 'zz': 'kk', 'aa': 'll', 'bb': 'mm'}
+            idx_ok = all(LOOPV.get(m.group(2)) == m.group(3) for m in re.finditer(r'\b(\w+) = (\w\w)\[(\w\w)\];', body1) if m.group(2) in LOOPV)
             sig = None
             kinds = {}
             for lhs, al in calls:
@@ -407,6 +409,13 @@ def gen_kernel_wiring():
             z0 = sorted(GRIDN.index(m.group(1)) for m in re.finditer(r'\((\w\w)\[\w\w\]\s*==\s*0\)', g0.group(1)))
             z1 = sorted(GRIDN.index(m.group(1)) for m in re.finditer(r'\((\w\w)\[\w\w\]\s*==\s*1\)', g1.group(1)))
             n0 = len(re.findall(r'==', g0.group(1))); n1 = len(re.findall(r'==', g1.group(1)))
+            for gg in (g0, g1):
+                for m in re.finditer(r'\((\w\w)\[(\w\w)\]\s*==\s*[01]\)', gg.group(1)):
+                    if LOOPV.get(m.group(1)) != m.group(2): idx_ok = False
+            # the r[] load and the write-back must use the same flat index
+            wbs = re.findall(r'phi\[([^\]]*?)\] = temp\[\w\w\];', body1)
+            lds = re.findall(r'r\[\w\w\] = phi\[([^\]]*?)\]/dt;', body1)
+            if wbs and lds and wbs[0].replace(' ', '') != lds[0].replace(' ', ''): idx_ok = False
             # flat index strides
             fi = re.search(r'r\[\w\w\] = phi\[(.*?)\]/dt;', body1)
             idx = fi.group(1).replace(' ', '') if fi else 'ii'
@@ -422,7 +431,7 @@ def gen_kernel_wiring():
             # 4D/5D last axis writes in place via &phi[...]
             rows.append(dict(d=d, ax=ax, coord_axes=coord_axes, mig_pairs=mig_pairs,
                              nu=nu, gamma=gam, h=hh, vfunc=mv.group(1), z0=z0, z1=z1, n0=n0, n1=n1,
-                             okfirst=okfirst, oklast=oklast, okint=okint, strides_ok=strides_ok,
+                             okfirst=okfirst, oklast=oklast, okint=okint, strides_ok=strides_ok and idx_ok,
                              bc0=g0.group(2), bc1=g1.group(2), nuarg=nu))
     out = ['structure KernelWiring where\n  d : Nat\n  ax : Nat\n  coordAxes : List Nat\n  migPairs : List (Nat × Nat)\n'
            '  nuIdx : Nat\n  gammaIdx : Nat\n  hIdx : Nat\n  zeroGuardAxes : List Nat\n  oneGuardAxes : List Nat\n'
@@ -686,9 +695,17 @@ def write_all(which=None, gen_dir=GEN_DIR):
         try:
             text = g(); res[name] = None
         except TranslateError as e:
+            # The obligation "this source translates" is broken (reported upstream).  Keep the last good generated
+            # file in place if there is one, so that the model still builds and the correspondence / failing-input
+            # search can run; only if there is none write a stub that makes dependants fail loudly.
             res[name] = str(e)
+            if os.path.exists(path) and 'translateFailed_' not in open(path).read():
+                continue
             text = HEADER + '/-- translation failed: %s -/\ndef translateFailed_%s : String := %s\nend DadiVerif\n' % (
                 str(e).replace('-/', '- /'), name, json.dumps(str(e)))
+        except Exception as e:
+            res[name] = 'translator crashed: %r' % (e,)
+            continue
         old = open(path).read() if os.path.exists(path) else None
         if old != text:
             with open(path, 'w') as f: f.write(text)
